@@ -78,7 +78,9 @@ def oracle(ctx: core.Ctx, recs: list[dict[str, Any]], envs: list[dict[str, Any]]
             ctx.timeouts += 1
             continue
         if t2 is None:
-            ctx.violate(f"unparsable:{op}:{a}|{case.get('b', '')}", f"text {text!r} (result of {op} on {a!r}) is rejected by poetry-core's parser", wit)
+            from . import c06
+            ctx.violate(c06.KNOWN_EMPTY if c06.empty_literal(a + " " + (case.get("b") or "")) else f"unparsable:{op}:{a}|{case.get('b', '')}",
+                        f"text {text!r} (result of {op} on {a!r}) is rejected by poetry-core's parser", wit)
             continue
         if MC.split_bits(t2) != xr:
             from .c07 import KNOWN_NOTIN, notin_class
@@ -172,6 +174,14 @@ def correspondence(ctx: core.Ctx) -> None:
     items = gen_items(ctx, ctx.budget(220, 9000))
     for k in range(0, len(items), 300):
         run(ctx, items[k:k + 300], "gen")
+    # literal shapes: empty values, values holding either quote character or a backslash — what `_quoted` has to choose
+    # the quotes for (repo fixes 3046ca3, 7b51c5a) and what the operator/value regexes have to keep apart
+    # (a backslash is not a PEP 508 string character — the reference rejects it — so it is C19's subject, not this one's)
+    lits = ['""', "''", "'a\"b'", '"it\'s"', "'\"'", "'a\"b\"c'"]
+    shapes = [(f"{n} {op} {l}", None) for n in ("os_name", "platform_version", "extra") for op in ("==", "!=") for l in lits]
+    shapes += [(f"{l} {op} platform_version", None) for op in ("in", "not in") for l in lits]
+    shapes += [(f'os_name == {l} or os_name == "nt"', f"os_name != {l}") for l in lits]
+    run(ctx, shapes, "literal-shapes")
     hist = G.history_items(ctx.rng, ctx.budget(150, 4000))
     for k in range(0, len(hist), 300):
         run(ctx, hist[k:k + 300], "history", keep_caches=True)
